@@ -248,6 +248,8 @@ def box_any(v):
     if isinstance(v, SV):
         if v.t == ANY:
             return v.z
+        if isinstance(v.t, OptT) and v.t.inner == ANY:
+            return z3.If(opt_is_none(v.t, v.z), z3.Const('any.None', AnySort), opt_val(v.t, v.z))
         f = z3.Function('box[%s]' % v.t.key(), sort_of(v.t), AnySort)
         return f(v.z)
     if v is MNONE:
